@@ -137,6 +137,8 @@ def run_one(cfg, root):
             val = vals.get(k, {"os": "linux", "arch": "amd64", "variant": "v8", "dname": "ubuntu", "dver": "24.04"}[k])
             env[var] = bytes(val) if isinstance(val, list) else val
     env.update(cfg.get("extra_env", {}))
+    if "LLVM_PROFILE_FILE" in os.environ:      # coverage measurement only (tools/coverage.sh)
+        env["LLVM_PROFILE_FILE"] = os.environ["LLVM_PROFILE_FILE"]
     envb = {k.encode(): (v if isinstance(v, bytes) else v.encode()) for k, v in env.items()}
     p = subprocess.run(["setpriv", "--reuid=65534", "--regid=65534", "--clear-groups",
                         os.path.join(root, "bin", exe_file(cfg))] + args, cwd=os.path.join(root, "app"), env=envb,
